@@ -118,7 +118,7 @@ def run(ctx):
                 jobs.append(((automata[kind], kind, fl, cap, "paths", base + ["--depth", 5, "--budget", budget]), {}))
                 variants = ([], ["insert_at"]) if kind == "slotmap" else ([],)
                 for n, excl in enumerate(variants):
-                    walks, steps = (4, 400) if quick else (10, 10000)
+                    walks, steps = (4, 400) if quick else (6, 10000)
                     o = common + ["--walks", walks, "--steps", steps] + (["--exclude", ",".join(excl)] if excl else [])
                     jobs.append(((automata[kind], kind, fl, cap, "random", o), {"salt": 200 + n}))
                 tf = ctx.path("traces", f"{kind}-{fl}-{cap}.ndjson")
